@@ -43,6 +43,10 @@ FINISH = dict(level="proof",
 
 LAKE_TARGETS = ["SharkVerif.Props.C01", "SharkVerif.Gen.RemoraRules", "SharkVerif.Gen.RemoraOpt", "drv_c01"]
 JOBS = 4
+# one thread in the harness: OpenMP/OpenBLAS worker threads spin-wait, which makes the many short harness
+# runs of a shrink very slow on a loaded machine (and a single thread keeps the kernels' summation order fixed)
+os.environ.setdefault("OMP_NUM_THREADS", "1")
+os.environ.setdefault("OPENBLAS_NUM_THREADS", "1")
 GEN_DIR = os.path.join(core.CACHE, "gen", "C01")
 
 
